@@ -18,9 +18,10 @@ REPO = os.environ.get("FX_REPO", "/repo")
 BIN = os.path.join(VERIF, "bin", "fxcheck")
 
 
-def run_variant(path):
+def run_variant(item):
+    path, prop_override = item if isinstance(item, tuple) else (item, None)
     v = json.load(open(path))
-    prop = v.get("prop") or os.path.basename(os.path.dirname(path))
+    prop = prop_override or v.get("prop") or os.path.basename(os.path.dirname(path))
     name = os.path.splitext(os.path.basename(path))[0]
     edits = v.get("edits") or [{"file": v["file"], "old": v["old"], "new": v["new"]}]
     tmp = tempfile.mkdtemp(prefix="fxvar-", dir="/var/tmp")
@@ -74,9 +75,14 @@ def main():
     ap.add_argument("names", nargs="*")
     a = ap.parse_args()
     pat = os.path.join(VERIF, "variants", a.prop or "*", "*.json")
-    files = sorted(glob.glob(pat))
+    files = [f for f in sorted(glob.glob(pat)) if os.path.basename(os.path.dirname(f)) != "_benign"]
+    # shared behaviour-preserving refactors: variants/_benign/*.json with "props": [...], one run per property
+    for f in sorted(glob.glob(os.path.join(VERIF, "variants", "_benign", "*.json"))):
+        for pr in json.load(open(f)).get("props", []):
+            if not a.prop or a.prop == pr:
+                files.append((f, pr))
     if a.names:
-        files = [f for f in files if any(n in os.path.basename(f) for n in a.names)]
+        files = [f for f in files if any(n in os.path.basename(f if isinstance(f, str) else f[0]) for n in a.names)]
     res = []
     with cf.ThreadPoolExecutor(max_workers=a.j) as ex:
         for r in ex.map(run_variant, files):
